@@ -118,12 +118,8 @@ def bytes_repeat(it, b, n, node):
     if bb.klen() == 1 and bb.chunks[0].lit is not None:
         c = bb.chunks[0].lit[0]
         f = sym.uf("brep", IntS, IntS, BytesS)
-        it.ctx.ax_used_brep = True
         z = f(z3.IntVal(c), zi(n))
-        res = VBytes([Chunk(z, None)])
-        nn = zi(n)
-        it.ctx.assume(z3.Length(z) == z3.If(nn > 0, nn, 0))
-        return res
+        return VBytes([Chunk(z, None)])
     raise Unsupported("bytes * symbolic int")
 
 
@@ -480,7 +476,7 @@ def index(it, base, idx, node, checked=True):
 def byte_val(it, z):
     if z3.is_int_value(z):
         return z.as_long()
-    it.ctx.assume(z3.And(z >= 0, z < 256))   # type invariant of bytes (trusted: byte-range)
+    it.ctx.assume_type(z3.And(z >= 0, z < 256))   # type invariant of bytes (trusted: byte-range)
     it.ctx.ax.used.add("byte-range")
     return VInt(z)
 
@@ -594,6 +590,16 @@ def slice_(it, base, lo, hi, st, node):
 
 def bytes_slice(it, vb, lo, hi):
     total = vb.klen()
+    if len(vb.chunks) == 1 and vb.chunks[0].lit is not None and total <= 64:
+        # slice of a small concrete table at a symbolic position: case split over the feasible positions
+        if isinstance(lo, VInt):
+            v = it.enumerate_int(lo, 64)
+            lo = v if v is not None else lo
+        if isinstance(hi, VInt) and not isinstance(lo, VInt):
+            v = it.enumerate_int(hi, 64)
+            hi = v if v is not None else hi
+        if not isinstance(lo, VInt) and not isinstance(hi, VInt):
+            return vb.chunks[0].lit[lo:hi]
     # turn negative concrete bounds into positive ones when the total length is known
     if total is not None:
         if isinstance(lo, int) and lo < 0:
@@ -852,7 +858,8 @@ def int_from_bytes(it, args, kwargs, node):
         z = vb.chunks[0].z
         if z3.is_app(z) and z.decl().name() in ("tobe", "tole") and getattr(vb.chunks[0], "n", None) is not None:
             same = (z.decl().name() == "tobe") == (order == "big")
-            if same and ("guard", z.get_id()) in it.ctx.ghost:
+            g = it.ctx.ghost.get(("guard", z.get_id()))
+            if same and g is not None and g.eq(z):
                 return mk_int(z.arg(0))
         if vb.chunks[0].n == 1:
             return index(it, vb, 0, node, checked=False)
@@ -894,7 +901,7 @@ def int_to_bytes(it, x, args, kwargs, node):
         return VBytes([Chunk(z3.Unit(xz), 1)])
     f = sym.F_tobe if order == "big" else sym.F_tole
     z = f(xz, nz)
-    it.ctx.ghost[("guard", z.get_id())] = True
+    it.ctx.ghost[("guard", z.get_id())] = z   # the term itself is kept: ids are reused after gc
     c = Chunk(z, n if isinstance(n, int) else None)
     if not isinstance(n, int):
         it.ctx.assume(z3.Length(z) == nz)
@@ -960,6 +967,16 @@ def bytes_method(it, recv, name, args, kwargs, node):
 
 def call_builtin(it, f, args, kwargs, node):
     E = _eng()
+    from . import contracts as _c
+    if f is _c.forall:
+        return q_forall(it, args, node)
+    if f is _c.implies:
+        a, b = it.truth(args[0]), it.truth(args[1])
+        if isinstance(a, bool):
+            return b if a else True
+        if isinstance(b, bool):
+            return True if b else mk_bool(z3.Not(a.z))
+        return mk_bool(z3.Implies(a.z, b.z))
     if f is hashlib.sha256 or f is hashlib.sha512:
         algo = "sha256" if f is hashlib.sha256 else "sha512"
         data = args[0] if args else b""
@@ -1227,3 +1244,30 @@ def seq_map(it, xs, e, g, fr):
     """[elt for target in xs] over a symbolic-length list: a fresh map symbol with a pointwise axiom."""
     from . import specs
     return specs.seq_map(it, xs, e, g, fr)
+
+
+def q_forall(it, args, node):
+    """forall(lambda i: body, lo, hi) -> ForAll i. lo <= i < hi => body(i)."""
+    from . import verify
+    E = _eng()
+    fn, lo, hi = args
+    if not isinstance(fn, E.Closure):
+        raise Unsupported("forall needs a lambda")
+    if not is_sym(lo) and not is_sym(hi) and hi - lo <= 4:
+        return all(it.decide(it.call_closure(fn, [i])) for i in range(lo, hi))
+    i = it.ctx.fresh_int("q_" + fn.node.args.args[0].arg)
+    rng = z3.And(zi(lo) <= i.z, i.z < zi(hi))
+    if not it.ctx.feasible(rng):
+        return True
+    # evaluate the body under the range hypothesis in a pushed scope
+    it.ctx.solver.push()
+    npc = len(it.ctx.pc)
+    try:
+        it.ctx.assume(rng)
+        sub = E.Frame(dict(fn.frame.locals), fn.frame.globals, fn.frame.fname)
+        sub.locals[fn.node.args.args[0].arg] = i
+        body = verify.formula(it, fn.node.body, sub)
+    finally:
+        del it.ctx.pc[npc:]
+        it.ctx.solver.pop()
+    return mk_bool(z3.ForAll([i.z], z3.Implies(rng, body)))
